@@ -26,7 +26,7 @@ RULE = ('level: one source x levels 0,1,2,3 (x -g for trap lines); grid: PRINT/C
         'distinct = shape hash, (op,type pair,value pair), window token tuple')
 ASSUMPTIONS = ['level 0 is the reference behaviour', 'windows are executed from the state reached after a '
                'fixed prologue (two locals, one global initialised)']
-REQUIRED_COUNTERS = ['level_runs_compared', 'grid_exprs', 'windows_wellformed']
+REQUIRED_COUNTERS = ['level_runs_compared', 'grid_exprs', 'windows_wellformed', 'static_bounds_compared']
 SHARD_TIMEOUT = {'quick': 900, 'thorough': 7200}
 
 # ----------------------------------------------------------------------------- grid
@@ -411,6 +411,9 @@ def gen_cases(tier, seed):
         cs.append(c)
     for i, t in enumerate(CONST_HEAVY):
         cs.append({'kind': 'level', 'src': 'text', 'text': t, 'seed': i, 'both_g': True})
+    nb = len(bound_programs())
+    for lo in range(0, nb, 4):
+        cs.append({'kind': 'bounds', 'lo': lo, 'hi': min(nb, lo + 4)})
     # grid
     space = list(grid_space())
     if tier == 'quick':
@@ -456,8 +459,126 @@ def gen_cases(tier, seed):
 EXHAUSTIVE = {}
 
 
+# ----------------------------------------------------------------------------- static array bounds
+# "a static array bound has the value that unoptimised run-time evaluation produces": the bound the compiler lays storage
+# out with is shown in the listing's .routines section (`single(0 to 4) a`); the run-time value is what LBOUND/UBOUND print.
+BOUND_FRACS = [0.0, 0.3, 0.49, 0.5, 0.51, 0.7]
+
+
+def bound_programs():
+    """-> list of (text, [array names])"""
+    vals = []
+    for k in range(-3, 5):
+        for f in BOUND_FRACS:
+            vals.append(k + f)
+    progs_ = []
+    per = 6
+    forms = ['lit', 'const', 'expr', 'paren']
+    for i in range(0, len(vals), per):
+        for fi, form in enumerate(forms):
+            lines = []
+            names = []
+            for j, v in enumerate(vals[i:i + per]):
+                lo = v
+                hi = v + 2.5 if (j + fi) % 2 else v + 3
+                nm = f'zb{j}'
+
+                def spell(x, tag):
+                    t = repr(abs(float(x)))
+                    if form == 'lit':
+                        return ('-' if x < 0 else '') + t
+                    if form == 'const':
+                        lines.append(f'CONST zc{tag}{j} = ' + (f'-{t}' if x < 0 else t))
+                        return f'zc{tag}{j}'
+                    if form == 'expr':
+                        return f'{repr(float(x) * 2)} / 2' if x >= 0 else f'-{repr(abs(float(x)) * 2)} / 2'
+                    return f'(({"-" if x < 0 else ""}{t}))'
+                los, his = spell(lo, 'l'), spell(hi, 'h')
+                kw = ['DIM', 'DIM SHARED'][j % 2]
+                ty = ['', ' AS LONG', ' AS STRING', ' AS DOUBLE'][(j + fi) % 4]
+                lines.append(f'{kw} {nm}({los} TO {his}){ty}')
+                names.append(nm)
+            lines.append('zguard% = 12345')
+            for nm in names:
+                lines.append(f'PRINT LBOUND({nm}); UBOUND({nm})')
+            # touch both ends of every array, then the guard declared after them
+            for nm in names:
+                lines.append(f'{nm}(LBOUND({nm})) = {nm}(UBOUND({nm}))')
+            lines.append('PRINT zguard%')
+            progs_.append(('\n'.join(lines) + '\n', names))
+    # one-sided bounds (lower bound 0) and procedure-local / STATIC arrays
+    for fi, f in enumerate(BOUND_FRACS):
+        lines = [f'DIM zb0({2 + f})', f'DIM zb1({3 + f}, {1 + f}) AS LONG', 'PRINT LBOUND(zb0); UBOUND(zb0)',
+                 'PRINT LBOUND(zb1); UBOUND(zb1)', 'PRINT LBOUND(zb1, 2); UBOUND(zb1, 2)', 'zs', 'zs', 'END', 'SUB zs',
+                 f'DIM zb2({-1 - f} TO {1 + f})', f'STATIC zb3({0.5 + f} TO {2 + f}) AS INTEGER', 'PRINT LBOUND(zb2); UBOUND(zb2)',
+                 'PRINT LBOUND(zb3); UBOUND(zb3)', 'zb3(UBOUND(zb3)) = zb3(UBOUND(zb3)) + 1', 'PRINT zb3(UBOUND(zb3))', 'END SUB']
+        progs_.append(('\n'.join(lines) + '\n', ['zb0', 'zb1', 'zb1#2', 'zb2', 'zb3']))
+    return progs_
+
+
+
+
+def run_bounds(case):
+    import re as _re
+    decl_re = _re.compile(r'^\s+[\w ]+?\(([^)]*)\)\s+(\S+)\s*$', _re.M)
+    st = {'bound_programs': 0, 'static_bounds_compared': 0, 'level_runs_compared': 0}
+    viol = []
+    shapes = []
+    sample = None
+    allp = bound_programs()
+    for idx in range(case['lo'], case['hi']):
+        text, names = allp[idx]
+        st['bound_programs'] += 1
+        for L in (0, 1, 2, 3):
+            c = rt.compile_src(text, L, False, want_listing=True)
+            if c.status != 'ok':
+                viol.append(V(f'C02:bounds:rejected:{c.status}', f'O{L}: {c.brief()} {c.msg}', text=text))
+                continue
+            listing = c.listing or ''
+            declared = {}
+            for m in decl_re.finditer(listing.split('.code')[0]):
+                dims = []
+                ok = True
+                for part in m.group(1).split(','):
+                    mm = _re.fullmatch(r'\s*(-?\d+)\s+to\s+(-?\d+)\s*', part)
+                    if not mm:
+                        ok = False
+                        break
+                    dims.append((int(mm.group(1)), int(mm.group(2))))
+                if ok and dims:
+                    declared[m.group(2).lower().split('_')[-1]] = dims
+            r = rt.run_module(rt.load_module(c.modbytes), {}, max_ticks=20000)
+            st['level_runs_compared'] += 1
+            prints = [[it[2] for it in e[1] if isinstance(it, list) and it[0] == 'v'] for e in r.history if e[0] == 'print']
+            if r.outcome != ['halt']:
+                viol.append(V(f'C02:bounds:run-ended:{r.outcome[0]}', f'O{L}: the program that only touches both ends of each array '
+                              f'ended {r.outcome}', text=text))
+                continue
+            k = 0
+            for nm in names:
+                base, _, dimno = nm.partition('#')
+                d = declared.get(base)
+                if k >= len(prints) or len(prints[k]) != 2:
+                    break
+                lo_rt, hi_rt = prints[k]
+                k += 1
+                if d is None:
+                    continue
+                lo_st, hi_st = d[int(dimno) - 1] if dimno else d[0]
+                st['static_bounds_compared'] += 1
+                shapes.append(f'bounds|{idx}|{nm}|{L}')
+                if (lo_st, hi_st) != (lo_rt, hi_rt):
+                    viol.append(V('C02:bounds:static-vs-runtime', f'O{L}: array {base} is laid out for {lo_st} TO {hi_st} (listing), '
+                                  f'LBOUND/UBOUND at run time say {lo_rt} TO {hi_rt}', text=text))
+            if sample is None:
+                sample = {'bounds_program': text[:300], 'declared': {k_: v for k_, v in list(declared.items())[:3]}}
+    return {'viol': viol, 'stats': st, 'shape': shapes, 'nontrivial': bool(shapes), 'sample': sample}
+
+
 def run_case(case):
     k = case['kind']
+    if k == 'bounds':
+        return run_bounds(case)
     if k == 'level':
         return run_level(case)
     if k == 'grid':
